@@ -5,10 +5,35 @@ import json
 import sys
 
 
+def _die_with_parent():
+    """A shard whose parent is gone (killed run) must not keep the cores busy: ask the kernel for SIGKILL on parent
+    death and, as a fallback, poll the parent pid."""
+    import os
+    import threading
+    import time
+
+    ppid = os.getppid()
+    try:
+        import ctypes
+
+        ctypes.CDLL(None, use_errno=True).prctl(1, 9, 0, 0, 0)  # PR_SET_PDEATHSIG, SIGKILL
+    except Exception:
+        pass
+
+    def poll():
+        while True:
+            time.sleep(5)
+            if os.getppid() != ppid:
+                os._exit(98)
+
+    threading.Thread(target=poll, daemon=True).start()
+
+
 def main():
     prop, tier, seed, shard, nshards, out = sys.argv[1:7]
     seed, shard, nshards = int(seed), int(shard), int(nshards)
     faulthandler.enable()
+    _die_with_parent()
     from vf import repoimport, kit
 
     repoimport.setup()
